@@ -435,9 +435,21 @@ func (x *Exec) loadExpr(e *cfront.Node, st *State) []res {
 	bf, recSize := isBitfieldMember(x, e)
 	for _, r := range x.lval(e, st) {
 		if bf {
+			ck := ""
+			if r.v.K == VPtr && r.v.Reg.Kind == RPkt {
+				ck = "pktcache@" + formKey(r.v.L) + ":" + r.v.Lbl
+				if cv, ok := r.st.mem[ck]; ok {
+					x.checkAccess(r.st, r.v, recSize, e, false)
+					out = append(out, res{r.st, cv})
+					continue
+				}
+			}
 			v := x.load(r.st, r.v, recSize, t, e)
 			nv := x.freshInt(r.st, 1, false, v.Org)
 			nv.Org = "pktbits:" + r.v.Lbl
+			for a := range nv.L.T {
+				x.SymOrg[a] = nv.Org
+			}
 			// bit-field widths: clang gives the width as a ConstantExpr child of the FieldDecl
 			if d := x.TU.ByID[e.RefMember]; d != nil {
 				if w, err := strconv.ParseInt(constOf(d.Kid(0)), 10, 64); err == nil && w > 0 && w < 32 {
@@ -448,6 +460,9 @@ func (x *Exec) loadExpr(e *cfront.Node, st *State) []res {
 			}
 			w, sg := intInfo(t)
 			nv.W, nv.Signed = w, sg
+			if ck != "" {
+				r.st.mem[ck] = nv
+			}
 			out = append(out, res{r.st, nv})
 			continue
 		}
@@ -627,6 +642,11 @@ func (x *Exec) store(st *State, p Val, size int64, v Val, e *cfront.Node) {
 	}
 	switch p.Reg.Kind {
 	case RPkt:
+		for k := range st.mem {
+			if strings.HasPrefix(k, "pktcache@") {
+				delete(st.mem, k)
+			}
+		}
 		st.Writes[e.ID] = e
 		ev := Event{Kind: "pktstore", Node: e, Lbl: p.Lbl, Off: p.LblOff, Size: size, Val: v, Ptr: p, Looked: lookedKeys(st), Func: x.stack[len(x.stack)-1], NAtoms: len(st.Atoms)}
 		x.Events = append(x.Events, ev)
@@ -697,6 +717,8 @@ func (x *Exec) evalUnary(e *cfront.Node, st *State) []res {
 						out = append(out, res{r.st, x.castTo(r.st, constVal(^c, w, sg), ty)})
 						continue
 					}
+					rg := r.st.Range(v.L)
+					x.event(r.st, Event{Kind: "bitnot", Node: e, Val: v, Off: rg.Lo, Size: rg.Hi})
 					nv := x.freshInt(r.st, w, sg, "~("+v.Org+")")
 					nv.fold = &foldTag{kind: "not", base: v.L}
 					out = append(out, res{r.st, nv})
